@@ -64,9 +64,23 @@ def dump_st(draw, cellkinds=("ortho", "tri"), styles=("x", "xs", "xu"), frames=(
     T = draw(st.integers(*frames))
     fr = [draw(frame_st(d, style, cellkind, fmt)) for _ in range(T)]
     t0 = draw(st.one_of(st.just(0), st.integers(0, 10**9)))
+    # timestep schedules a simulation can write: increasing (usual), a frame re-dumped at the same step (run 0,
+    # minimisation, restart appending the last step), a counter that goes back (reset_timestep), identical copies of a
+    # whole frame.  One snapshot per frame in file order is promised whatever the TIMESTEP lines say.
+    sched = draw(st.sampled_from(["increasing", "increasing", "repeats", "any-order", "all-equal"])) if T > 1 else "single"
     steps = [t0]
     for _ in range(T - 1):
-        steps.append(steps[-1] + draw(st.integers(1, 10**6)))
+        if sched == "increasing":
+            steps.append(steps[-1] + draw(st.integers(1, 10**6)))
+        elif sched == "repeats":
+            steps.append(steps[-1] + draw(st.sampled_from([0, 0, 1, 500])))
+        elif sched == "all-equal":
+            steps.append(t0)
+        else:
+            steps.append(draw(st.integers(0, 10**6)))
+    if sched in ("repeats", "all-equal") and T > 1 and draw(st.booleans()):
+        k = draw(st.integers(1, T - 1))
+        fr[k] = fr[k - 1]            # the very same frame written twice
     return {"d": d, "style": style, "cellkind": cellkind, "fmt": fmt, "frames": fr, "timesteps": steps}
 
 
@@ -219,6 +233,10 @@ def check(case):
             "shuffled" if shuffled else "ordered", "origin" if origin else "origin0"]
     if negtilt:
         tags.append("negtilt")
+    ts = case["timesteps"]
+    if len(ts) > 1:
+        tags.append("timesteps-increasing" if all(b > a for a, b in zip(ts, ts[1:])) else
+                    ("timesteps-repeat-consecutive" if any(b == a for a, b in zip(ts, ts[1:])) else "timesteps-unordered"))
     if any(e["wrapped"] for e in expected):
         tags.append("wrap-applied")
     if any(fr["extra_names"] for fr in fr0):
